@@ -75,6 +75,10 @@ ASSUMPTIONS = [
     "frozenbitarray (data and voice); little-endian bitarrays are NOT in the domain: the unchanged tree resolves the sync "
     "through tobytes() and the PDU fields through ba2int(), both of which read the container's endianness flag (a "
     "little-endian copy of a valid burst is mis-parsed or rejected on /repo), and no caller in the library builds one",
+    "a Burst is a snapshot taken at parse time: batch parses out of reused caller-owned buffers (bitarray through from_bits, "
+    "bytearray through from_bytes) and overwrites them afterwards; every later serialisation must give the burst's own bits. "
+    "Holds on /repo because every attribute the serialisers read is a slice copy; Burst.full_bits itself IS the caller's "
+    "object (stored by reference) and is therefore never read by this check",
     "GPS coordinates are multiples of the wire resolution; other floats cannot survive a 25/24-bit field and are not "
     "'in-range field values'",
 ]
@@ -450,7 +454,10 @@ def oracle_batch(case):
     Solo: every item is assembled / parsed on its own (and judged with data_grid's clauses).  Batch, phase 1: ALL items are
     built (assembled bursts, not yet serialised) and ALL their byte strings are parsed into Burst objects; in between, the
     `noise` byte strings (arbitrary 33 octets: reserved data types, unlisted enum values, broken FEC) are parsed and, when
-    that works, serialised and repr-ed - whatever they do is ignored.  Phase 2: the objects are serialised in ANOTHER order,
+    that works, serialised and repr-ed - whatever they do is ignored.  The byte strings are parsed either fresh or
+    (70 % of the batches) out of ONE caller-owned bitarray / bytearray that is overwritten in place before every parse (slice
+    assignment, clear+extend, setall+|=, single-bit inverts) and again after the last parse (zeros / ones / another burst /
+    inverted).  Phase 2: the objects are serialised in ANOTHER order,
     twice: every result must equal the solo result, every parsed payload must still carry its own generated fields."""
     Burst, BurstTypes, DataTypes, SyncPatterns, SlotType = _lib()
     items, order = case["items"], case["order"]
@@ -477,9 +484,31 @@ def oracle_batch(case):
                 except Exception:
                     pass  # arbitrary octets may be rejected in any way; only their after-effects matter
 
-    # phase 1
-    assembled, pdus, parsed = [], [], []
-    for it, raw in zip(items, solo):
+    # phase 1.  The parsed objects come from CALLER-OWNED buffers that are reused: one mutable bitarray (and one bytearray)
+    # is overwritten in place with the next burst before every parse and once more after the last parse.  A Burst is a
+    # snapshot taken at parse time: what the caller does to its own buffer afterwards must not show in any later result.
+    modes = case.get("buffer_modes") or ["fresh"] * len(items)
+    buf, bbuf = bitarray(264, endian="big"), bytearray(33)
+    buf.setall(0)
+
+    def overwrite(bits: bitarray, mode: str):
+        if mode == "slice":
+            buf[:] = bits
+        elif mode == "clear_extend":
+            buf.clear()
+            buf.extend(bits)
+        elif mode == "setall_or":
+            buf.setall(0)
+            buf.__ior__(bits)
+        else:  # flip_bits: invert exactly the positions that differ
+            for i in range(264):
+                if buf[i] != bits[i]:
+                    buf.invert(i)
+        assert buf == bits and len(buf) == 264
+
+    assembled, pdus, parsed, parsed_b = [], [], [], []
+    for it, raw, mode in zip(items, solo, modes):
+        bt = BurstTypes.DataAndControl if "kind" in it else BurstTypes.Vocoder
         if "kind" in it:
             dt, sp = DataTypes[G.DATA_TYPE_OF_KIND[it["kind"]]], SyncPatterns[it["sync"]]
             st, pdu = call(G.build, it["kind"], it["variant"], it["f"])
@@ -487,11 +516,30 @@ def oracle_batch(case):
             pdus.append(pdu)
             assembled.append(b)
             noise()
-            parsed.append(call(Burst.from_bytes, raw)[1])
         else:
             pdus.append(None)
             assembled.append(None)
-            parsed.append(call(Burst.from_bytes, raw, BurstTypes.Vocoder)[1])
+        if mode == "fresh":
+            parsed.append(call(Burst.from_bytes, raw, bt)[1])
+            parsed_b.append(None)
+        else:
+            overwrite(_from_bytes(raw), mode)
+            parsed.append(call(Burst.from_bits, buf, bt)[1])
+            bbuf[:] = raw
+            parsed_b.append(call(Burst.from_bytes, bbuf, bt)[1])
+    after = case.get("buffer_after")
+    if after == "zeros":
+        buf.setall(0)
+        bbuf[:] = bytes(33)
+    elif after == "ones":
+        buf.setall(1)
+        bbuf[:] = b"\xff" * 33
+    elif after == "other":
+        overwrite(_from_bytes(solo[order[0]]), "slice")
+        bbuf[:] = solo[order[0]]
+    elif after == "invert":
+        buf.invert()
+        bbuf[:] = bytes(x ^ 0xFF for x in bbuf)
     noise()
     # phase 2: another order, then the reverse of it
     for rnd, seq in enumerate((order, order[::-1])):
@@ -500,7 +548,11 @@ def oracle_batch(case):
             if assembled[j] is not None and _as_33_bytes(assembled[j]) != raw:
                 raise Fail("batch_result_equals_solo_result", {"item": j, "object": "assembled", "round": rnd}, "solo bytes", klass="assembled")
             if _as_33_bytes(parsed[j]) != raw:
-                raise Fail("batch_result_equals_solo_result", {"item": j, "object": "parsed", "round": rnd}, "solo bytes", klass="parsed:" + ("data" if "kind" in it else "voice"))
+                raise Fail("batch_result_equals_solo_result", {"item": j, "object": "parsed", "round": rnd, "buffer": modes[j], "after": after}, "solo bytes",
+                           klass="parsed:" + ("data" if "kind" in it else "voice") + (":reused_caller_buffer" if modes[j] != "fresh" else ""))
+            if parsed_b[j] is not None and _as_33_bytes(parsed_b[j]) != raw:
+                raise Fail("batch_result_equals_solo_result", {"item": j, "object": "parsed from bytearray", "round": rnd, "after": after}, "solo bytes",
+                           klass="parsed:" + ("data" if "kind" in it else "voice") + ":reused_caller_bytearray")
             if "kind" in it:
                 pp = parsed[j].data
                 if it["kind"] in _RATE_KINDS and pp is not None:
@@ -520,11 +572,12 @@ def oracle_batch(case):
 def _batch_case(rng):
     n = rng.choice([2, 2, 3, 3, 4])
     same_variant = rng.random() < 0.4
+    voice_only = (not same_variant) and rng.random() < 0.25  # a superframe's worth of voice bursts through one buffer
     base = rng.choice(G.VARIANTS)
     items = []
     for _ in range(n):
         r = rng.random()
-        if r < 0.25 and not same_variant:
+        if (r < 0.25 and not same_variant) or voice_only:
             if rng.random() < 0.7:
                 m = rng.randrange(128)
                 items.append({"center": "emb", "cc": m >> 3, "pi": (m >> 2) & 1, "lcss": m & 3, "emb_bits": "%08x" % rng.getrandbits(32), "voice": _voice_payload(rng)})
@@ -547,7 +600,13 @@ def _batch_case(rng):
             slot = gf2.ref_encode("golay_20_8_7", gf2.int_to_bits(rng.randrange(16), 4) + gf2.int_to_bits(rng.choice([4, 5, 9, 11, 12, 13, 14, 15]), 4))
             bits[98:108], bits[156:166] = slot[:10], slot[10:]
             noise.append(_ba(bits).tobytes().hex())
-    return {"items": items, "order": order, "noise": noise}
+    # caller-owned buffer: 70 % of the batches parse every item out of ONE reused mutable buffer, overwritten in place
+    if rng.random() < 0.7:
+        modes = [rng.choice(["slice", "clear_extend", "setall_or", "flip_bits"]) for _ in items]
+        after = rng.choice([None, "zeros", "ones", "other", "invert"])
+    else:
+        modes, after = ["fresh"] * n, None
+    return {"items": items, "order": order, "noise": noise, "buffer_modes": modes, "buffer_after": after}
 
 
 def drv_batch(ctx: Ctx, sub: SubCheck):
@@ -562,6 +621,9 @@ def drv_batch(ctx: Ctx, sub: SubCheck):
             kinds = sorted({G.expected_class_name(it["kind"]) if "kind" in it else "voice" for it in c["items"]})
             t.case(sub.name, key=None, nontrivial=False, cls="items=%d:noise=%d" % (len(c["items"]), len(c["noise"])))
             t.cls(sub.name, "one_class" if len(kinds) == 1 else "mixed_classes")
+            t.cls(sub.name, "parse_source:" + ("fresh" if c["buffer_modes"][0] == "fresh" else "reused_caller_buffer:after=%s" % c["buffer_after"]))
+            if sum(1 for it in c["items"] if "kind" not in it) >= 2:
+                t.cls(sub.name, "two_or_more_voice_items")
             if _SIDE.get("nonzero", True):
                 t.nt_hashes.add(digest([sub.name, c]))
             if j < 3:
@@ -783,6 +845,10 @@ def oracle_voice(case):
         _repeat_after_scribble(b.as_bits, f"voice_burst.as_bits:{how}")
         if how == "from_bits":
             arg.invert()
+            # the parsed burst is a snapshot: scribbling on the caller's own buffer afterwards does not change what it serialises
+            st, again = call(b.as_bits)
+            if _ba(again) != bits:
+                raise Fail("burst_independent_of_callers_buffer_after_parse", _diffpos(_ba(again), bits), "no difference", klass=case["center"])
             st, b2 = call(Burst.from_bits, bits.copy(), BurstTypes.Vocoder)
             st, out2 = call(b2.as_bits)
             if _ba(out2) != bits:
